@@ -297,8 +297,34 @@ def run(ctx: Ctx) -> None:
             continue
         for n in f.own_nodes():
             if isinstance(n, ast.Call) and (prog.dotted(f, n.func) or "").endswith("dds_hash_commut") and n.args:
-                lists = [x for x in ast.walk(n.args[0]) if isinstance(x, ast.List) and x.elts and all(isinstance(e, ast.Tuple) and len(e.elts) == 2 for e in x.elts)]
-                names = [unparse(e.elts[1]) for l in lists for e in l.elts if isinstance(e.elts[1], ast.Name)]
+                def alts(e: ast.AST, depth: int = 0) -> List[List[str]]:
+                    """the value names of the (key, value) pairs, per alternative way of building the list"""
+                    if isinstance(e, ast.List):
+                        return [[unparse(x.elts[1]) for x in e.elts if isinstance(x, ast.Tuple) and len(x.elts) == 2 and isinstance(x.elts[1], ast.Name)]]
+                    if isinstance(e, ast.BinOp) and isinstance(e.op, ast.Add):
+                        return [a + b for a in alts(e.left, depth) for b in alts(e.right, depth)][:16]
+                    if isinstance(e, ast.IfExp):
+                        return (alts(e.body, depth) + alts(e.orelse, depth))[:16]
+                    if isinstance(e, ast.Name) and depth < 2:
+                        # a list built beforehand: its literal definition(s), then the pairs appended to it in this function
+                        base: List[List[str]] = []
+                        extra: List[str] = []
+                        for st in f.own_nodes():
+                            if isinstance(st, (ast.Assign, ast.AnnAssign)) and st.value is not None and any(
+                                    isinstance(t, ast.Name) and t.id == e.id for t in (st.targets if isinstance(st, ast.Assign) else [st.target])):
+                                base += alts(st.value, depth + 1)
+                            elif isinstance(st, ast.Call) and isinstance(st.func, ast.Attribute) and st.func.attr in ("append", "insert") \
+                                    and isinstance(st.func.value, ast.Name) and st.func.value.id == e.id and st.args and isinstance(st.args[-1], ast.Tuple) \
+                                    and len(st.args[-1].elts) == 2 and isinstance(st.args[-1].elts[1], ast.Name):
+                                extra.append(unparse(st.args[-1].elts[1]))
+                        return [b + extra for b in (base or [[]])][:16]
+                    return [[]]
+
+                alternatives = alts(n.args[0])
+                names = max(alternatives, key=len) if alternatives else []
+                for al in alternatives:
+                    if any(al.count(x) > 1 for x in al):
+                        names = al
                 if len(names) < 2:
                     continue
                 n11 += 1
